@@ -74,23 +74,30 @@ def open_object(case, path, lines):
     return getattr(wf, v)(path)
 
 
-def do_reads(obj, case, lines, who, nreads, seed, log):
-    """Random access sequence of one process; returns (reads, mismatches[:3])."""
+def do_reads(obj, case, lines, who, nreads, seed, log, first=None):
+    """Random access sequence of one process; `first` forces the index of the first read. A read that raises is
+    answered the way a caller would: open() again and retry once (only injected faults make reads raise)."""
     rng = random.Random(seed)
     n = len(lines)
     v = case["variant"]
     bad = []
     cnt = 0
+    recovered = 0
     unwrap = (lambda r: r.s) if "Record" in v else (lambda r: r)
-    for k in range(nreads):
-        op = rng.random()
+    k = 0
+    retry = None
+    while k < nreads:
+        op = rng.random() if retry is None else retry[0]
+        forced = first if (k == 0 and first is not None) else (retry[1] if retry else None)
         try:
             if v == "MapAccessFile":
-                i = rng.randrange(n)
+                i = rng.randrange(n) if forced is None else forced % n
+                forced_used = i
                 got, want = obj[f"k{i}"], lines[i] + "\n"
                 desc = f"m['k{i}']"
-            elif op < 0.75:
-                i = rng.randrange(-n, n)
+            elif op < 0.75 or forced is not None:
+                i = rng.randrange(-n, n) if forced is None else forced % n
+                forced_used = i
                 got, want = unwrap(obj[i]), lines[i]
                 desc = f"f[{i}]"
             elif op < 0.9:
@@ -102,13 +109,24 @@ def do_reads(obj, case, lines, who, nreads, seed, log):
                 got, want = [unwrap(x) for x in obj], list(lines)
                 desc = "list(f)"
         except Exception as e:
+            if retry is None and "injected" in str(e):
+                # the caller's ordinary reaction to a failed read: make sure the file is open and try again
+                recovered += 1
+                try:
+                    obj.open()
+                except Exception as e2:
+                    bad.append([f"open() after a failed read", "success", f"raised {type(e2).__name__}: {e2}"])
+                retry = (0.0, locals().get("forced_used", 0) if v != "x" else 0)
+                continue
             got, want, desc = f"raised {type(e).__name__}: {e}", "a line", f"read #{k}"
+        retry = None
+        k += 1
         cnt += 1
         if got != want and len(bad) < 3:
             bad.append([desc, repr(want)[:120], repr(got)[:120]])
         if case.get("pace"):
             time.sleep(case["pace"])
-    log("reads_done", who=who, n=cnt, bad=bad)
+    log("reads_done", who=who, n=cnt, bad=bad, recovered=recovered)
     return cnt, bad
 
 
@@ -120,6 +138,12 @@ def run_workload(case, d, log, label_child=None):
     nreads = case.get("reads", 60)
     # the parent reads before forking: the inherited handle has a position and a filled buffer
     do_reads(obj, case, lines, "parent-before-fork", case.get("parent_reads_before", 5), case["seed"] + 1, log)
+    last_parent = None
+    if case.get("first_follows_parent") and len(lines) > 2:
+        # the last thing the parent reads before forking is line K; every child starts with line K+1 (the position
+        # the inherited handle stands on)
+        last_parent = (case["seed"] * 13) % (len(lines) - 1)
+        do_reads(obj, case, lines, "parent-before-fork-last", 1, case["seed"] + 5, log, first=last_parent)
     kids = []
     style = case.get("fork_style", "os.fork")
     K = case["children"]
@@ -133,7 +157,8 @@ def run_workload(case, d, log, label_child=None):
             if sub == 0:
                 child_main(i, 1)
                 os._exit(0)
-        do_reads(obj, case, lines, f"{'child' if depth == 0 else 'grandchild'}{i}", nreads, case["seed"] * 101 + i * 7 + depth, log)
+        do_reads(obj, case, lines, f"{'child' if depth == 0 else 'grandchild'}{i}", nreads, case["seed"] * 101 + i * 7 + depth, log,
+                 first=None if last_parent is None else last_parent + 1)
         if sub:
             os.waitpid(sub, 0)
 
@@ -298,7 +323,15 @@ def main():
         kw["ev"] = ev
         kw["pid"] = os.getpid()
         os.write(fd, (json.dumps(kw) + "\n").encode())
-    run_workload(case, d, log)
+    label = None
+    if case.get("plan"):
+        # failpoints also under strace: the descriptor-ownership oracle then sees what a child does after a failed reopen
+        sys.path.insert(0, os.path.dirname(os.path.dirname(os.path.abspath(__file__))))
+        from vf import instr
+        instr.install(["windpyutils.files"])
+        instr.start_case(plan={(r, q, rel, o): (k, a) for r, q, rel, o, k, a in case["plan"]}, trace=False)
+        label = instr.reset_for_child
+    run_workload(case, d, log, label)
 
 
 if __name__ == "__main__":
